@@ -701,7 +701,7 @@ static Dictionary::Ptr GenSpec(Rng& rng, int idx)
 				continue;
 			}
 			String key = keys[rng.below(keys.size())];
-			if (key.IsEmpty() || key.Contains(".") || usedKeys.count(key))
+			if (key.IsEmpty() || key.Contains("."))
 				continue;
 			usedKeys.insert(key);
 			if (vars->Get(key).IsObjectType<Dictionary>())
